@@ -73,12 +73,6 @@ func checkUnitCase(c unitCase, o *pbt.Rec) pbt.Verdict {
 	if f != nil {
 		return classify(w, p, nil, *f)
 	}
-	// the unit's field comes back null with a non-null error although its RPC was never issued:
-	// the mock cannot be blamed for that null, the datasource dropped the call
-	if u := w.units[c.Unit]; u != nil && u.RPC != "" && out.resp != nil && !contains(out.res.RPCs, u.RPC) && errorMentionsKey(out.resp, u.Def.Name) {
-		return classify(w, p, nil, failure{kind: "call-dropped", side: "q", a: out, msg: fmt.Sprintf("the field %s is answered null (non-null error) although its RPC %s was never issued (RPCs: %v)\n q = %s\n response = %s",
-			c.Unit, u.RPC, out.res.RPCs, c.Q, clip(out.res.Body))})
-	}
 	return pbt.OK
 }
 
@@ -323,6 +317,23 @@ func runOne(g *rig, w *world, p *parsedOp, stable func(string) bool, side string
 	out.walk.run(p, resp)
 	if len(out.walk.viol) > 0 {
 		return out, &failure{kind: "shape", side: side, a: out, msg: fmt.Sprintf("shape: response of %s does not match its selection: %s\n %s = %s\n response = %s", side, strings.Join(out.walk.viol, "; "), side, p.text, clip(res.Body))}
+	}
+	// A null in a non-null position is normally the mock's doing (it leaves messages unset).
+	// Not so when the field is a unit whose RPC was never issued and no fetch failed: then the
+	// service was not even asked, the datasource dropped the call.
+	if out.fetchFailure == "" {
+		for _, e := range resp.Errors {
+			m, _ := e.(map[string]any)
+			msg, _ := m["message"].(string)
+			path, _ := m["path"].([]any)
+			if !strings.HasPrefix(msg, "Cannot return null for non-nullable field") || len(path) == 0 {
+				continue
+			}
+			if u := w.unitAtResponsePath(p, path); u != nil && u.RPC != "" && !contains(res.RPCs, u.RPC) {
+				return out, &failure{kind: "call-dropped", side: side, a: out, msg: fmt.Sprintf("the field %s at %v is answered null (non-null error) although its RPC %s was never issued (RPCs: %v) and no fetch failed\n %s = %s\n response = %s",
+					u.Key, path, u.RPC, res.RPCs, side, p.text, clip(res.Body))}
+			}
+		}
 	}
 	return out, nil
 }
